@@ -461,7 +461,11 @@ def op_failures(before, op, i):
     if op not in CHANGERS:
         if d1.shape != d0.shape:
             out.append(f'{op} changed the data shape {d0.shape} -> {d1.shape}')
-        elif not np.array_equal(np.isnan(d0), np.isnan(d1)) or not np.array_equal(np.isfinite(d0), np.isfinite(d1)):
+        elif not np.array_equal(np.isfinite(d0), np.isfinite(d1)) or \
+                (np.isfinite(d0).any() and not np.array_equal(np.isnan(d0), np.isnan(d1))):
+            # (a map WITHOUT any valid sample has no mean / fit: inf - NaN = NaN turns an invalid +-inf into an invalid NaN; the set of
+            #  invalid samples — the non-finite ones — is what the property speaks about, the NaN / inf distinction is only compared
+            #  when the subtracted term is defined)
             out.append(f'{op} changed the set of invalid samples')
     if op in READ_ONLY:
         if d1.shape != d0.shape or not np.array_equal(d0, d1, equal_nan=True):
